@@ -26,6 +26,7 @@ def ordOf (col : Bool) : Order := if col then .column else .row
 theorem ordOf_ne_system (col : Bool) : ordOf col ≠ .system := by
   cases col <;> simp [ordOf]
 
+omit [CommRing α] in
 /-- the vector `v` that `choiOf` builds from an operator is the C17 vectorisation. -/
 theorem choiVec_eq (D n : Nat) (col : Bool) (K : Nat → Nat → α) (a : Nat) :
     (if col then K (a % D) (a / D) else K (a / D) (a % D))
@@ -62,6 +63,7 @@ theorem choiOf_eq_krausToChoi (conj : α → α) (D n : Nat) (col : Bool)
   rw [choiOf_eq_sum conj D n]
   simp [krausToChoi, sumList]
 
+omit [CommRing α] in
 /-- `_reshuffling` of the channel model is the one of the C17 model (no index bound needed). -/
 theorem reshuffle_eq (D : Nat) (col : Bool) (A : Nat → Nat → α) :
     reshuffle D col A = QV.Superop.reshuffle (ordOf col) D A := by
